@@ -92,8 +92,9 @@ Theorem c14_hint_is_scoped : forall ops hints i,
   let st := fst (run [] ops) in forall n, vget (fst (hinted st hints i)) n = vget st n.
 Proof. intros ops hints i st n. apply (hint_is_scoped SV usable schema_defaults). apply c14_typed. Qed.
 
-(* an assignment the server accepted never breaks the session: after any history the time zone parses and the two
-   character sets the connection depends on exist *)
+(* an assignment the server accepted never breaks the session: after any history the time zone parses, the two
+   character sets the connection depends on exist, and the client's is one in which the protocol's NUL-terminated
+   strings can be sent (not ucs2 / utf16 / utf16le / utf32) *)
 Theorem c14_session_stays_operational : forall ops, operational SV usable (fst (run [] ops)) = true.
 Proof. intros ops. apply run_operational; exact schema_operational. Qed.
 
